@@ -896,8 +896,15 @@ func (v *ValidationExpr) Dup() *ValidationExpr {
 		req = make([]string, len(v.Required))
 		copy(req, v.Required)
 	}
+	var vals []any
+	if v.Values != nil {
+		// copy the enum values so that writing an element of the copy
+		// does not change the original
+		vals = make([]any, len(v.Values))
+		copy(vals, v.Values)
+	}
 	return &ValidationExpr{
-		Values:           v.Values,
+		Values:           vals,
 		Format:           v.Format,
 		Pattern:          v.Pattern,
 		ExclusiveMinimum: v.ExclusiveMinimum,
